@@ -16,7 +16,16 @@ from __future__ import annotations
 import ast
 import os
 
+from harness import c12_norm as NORM
 from harness.c12_registry import TranslationError
+
+# locals (not parameters) of the analysed functions in order of first binding, as the recognised shapes below spell them
+# (c12_norm: temporaries beyond this list are substituted when sound, the remaining locals renamed to it by position)
+REF_LOCALS = {
+    "cast_inputs": ["x", "expected_inputs", "type_bindings", "args_typevars", "i", "expected", "typevar", "typeinfo", "cast_args"],
+    "_cast_inputs": ["i", "expected_inputs", "type_bindings", "args_typevars", "x", "expected", "typevar"],
+    "_input_to_ir_value": ["dtype", "needs_dynamic_cast", "ir_value"],
+}
 
 
 def _src(n):
@@ -42,8 +51,13 @@ def _find(tree, name, cls=None):
     return found[0]
 
 
-def _is_comment_free(stmts):
-    return stmts
+def _findn(tree, name, cls=None):
+    """_find + the behaviour-preserving normal form of harness/c12_norm.py"""
+    return NORM.normal(_find(tree, name, cls), REF_LOCALS.get(name, []), tree)
+
+
+def _want(texts):
+    return NORM.flat_texts(texts)
 
 
 # ------------------------------------------------------------------------------------------- the loop
@@ -132,7 +146,7 @@ def translate_loop(fn, what):
 
 def translate_autocast(path):
     tree = ast.parse(open(path).read())
-    ci = _find(tree, "cast_inputs")
+    ci = _findn(tree, "cast_inputs")
     flags = translate_loop(ci, "autocast.cast_inputs")
     # the statements around the loop
     pre = [_src(b) for b in _strip_doc(ci.body) if not isinstance(b, ast.For)]
@@ -142,24 +156,24 @@ def translate_autocast(path):
             "args_typevars: list[tuple[str, Optional[str]]] = []",
             "cast_args = [cast(x, type_bindings.get(typevar)) for x, typevar in args_typevars]",
             "return tuple(cast_args)"]
-    if pre != want:
+    if pre != _want(want):
         raise TranslationError(f"autocast.cast_inputs: statements around the loop changed: {[p for p in pre if p not in want][:2]}")
     flags["cast_by_lookup"] = True
     # dynamic
-    dyn = _find(tree, "dynamic_cast_inputs")
+    dyn = _findn(tree, "dynamic_cast_inputs")
     dsrc = [_src(b) for b in _strip_doc(dyn.body)]
-    if dsrc != ["def get_type_info(x):\n    return x.dtype if isinstance(x, tensor.Tensor) else None",
-                "return cast_inputs(get_type_info, cast_pyvalue_to_os_tensor, op_signature, args)"]:
+    if dsrc != _want(["def get_type_info(x):\n    return x.dtype if isinstance(x, tensor.Tensor) else None",
+                "return cast_inputs(get_type_info, cast_pyvalue_to_os_tensor, op_signature, args)"]):
         raise TranslationError(f"autocast.dynamic_cast_inputs changed: {dsrc}")
-    cp = _find(tree, "cast_pyvalue_to_os_tensor")
+    cp = _findn(tree, "cast_pyvalue_to_os_tensor")
     csrc = [_src(b) for b in _strip_doc(cp.body)]
     as_read = ["if _promotable(pyvalue):\n    if dtype is None:\n        dtype = _get_dtype(pyvalue)\n"
                "    return tensor.Tensor(np.array(pyvalue, dtype=dtype))", "return pyvalue"]
     wrapped = ["if _promotable(pyvalue):\n    if dtype is None:\n        dtype = _get_dtype(pyvalue)\n"
                "    return tensor.Tensor(np.asarray(pyvalue).astype(dtype))", "return pyvalue"]
-    if csrc == as_read:
+    if csrc == _want(as_read):
         eager_wrap = False
-    elif csrc == wrapped:
+    elif csrc == _want(wrapped):
         eager_wrap = True
     else:
         raise TranslationError(f"autocast.cast_pyvalue_to_os_tensor changed: {csrc}")
@@ -172,23 +186,23 @@ def translate_autocast(path):
                            "    if pyvalue:\n        return _get_dtype(pyvalue[0])\n"
                            "    raise ValueError('Cannot determine target type for empty list')",
                            "raise TypeError(f'Value of unexpected type {type(pyvalue)}')"])):
-        got = [_src(b) for b in _strip_doc(_find(tree, nm).body)]
-        if got != want_src:
+        got = [_src(b) for b in _strip_doc(_findn(tree, nm).body)]
+        if got != _want(want_src):
             raise TranslationError(f"autocast.{nm} changed: {got}")
     # static
-    st = _find(tree, "static_cast_inputs")
+    st = _findn(tree, "static_cast_inputs")
     ssrc = [_src(b) for b in _strip_doc(st.body)]
     inner = {}
     for b in _strip_doc(st.body):
         if isinstance(b, ast.FunctionDef):
             inner[b.name] = [_src(x) for x in _strip_doc(b.body)]
-    if inner.get("get_type_info") != ["return None if x is None or converter_._is_castable(x.name) else x"]:
+    if inner.get("get_type_info") != _want(["return None if x is None or converter_._is_castable(x.name) else x"]):
         raise TranslationError(f"static get_type_info changed: {inner.get('get_type_info')}")
-    if inner.get("cast_like") != ["if x is None:\n    return None",
+    if inner.get("cast_like") != _want(["if x is None:\n    return None",
                                   "if converter_._is_castable(x.name) and y is not None:\n"
                                   "    x_cast = converter_._generate_unique_name(f'{x.name}_cast')\n"
                                   "    return converter_._emit1([x_cast], 'CastLike', [x, y])",
-                                  "return x"]:
+                                  "return x"]):
         raise TranslationError(f"static cast_like changed: {inner.get('cast_like')}")
     if ssrc[-1] != "return cast_inputs(get_type_info, cast_like, op_signature, args)" or len(ssrc) != 3:
         raise TranslationError("static_cast_inputs changed")
@@ -199,7 +213,7 @@ def translate_autocast(path):
 
 def translate_builder(path):
     tree = ast.parse(open(path).read())
-    ci = _find(tree, "_cast_inputs", "BuilderBase")
+    ci = _findn(tree, "_cast_inputs", "BuilderBase")
     flags = translate_loop(ci, "BuilderBase._cast_inputs")
     pre = [_src(b) for b in _strip_doc(ci.body) if not isinstance(b, ast.For)]
     want = ["if schema is None:\n    return [self._input_to_ir_value(i) for i in inputs]",
@@ -210,10 +224,10 @@ def translate_builder(path):
             "    if typevar is None:\n        return self._input_to_ir_value(x)\n"
             "    type_like = type_bindings.get(typevar)\n    return self._input_to_ir_value(x, type_like)",
             "return [adapt(x, typevar) for x, typevar in args_typevars]"]
-    if pre != want:
+    if pre != _want(want):
         raise TranslationError(f"BuilderBase._cast_inputs: statements around the loop changed: {[p for p in pre if p not in want][:2]}")
     flags["cast_by_lookup"] = True
-    iv = _find(tree, "_input_to_ir_value", "BuilderBase")
+    iv = _findn(tree, "_input_to_ir_value", "BuilderBase")
     isrc = [_src(b) for b in _strip_doc(iv.body)]
     want_iv = ["if isinstance(value, ir.Value):\n    return value",
                "if value is None:\n    return value",
@@ -223,7 +237,7 @@ def translate_builder(path):
                "if needs_dynamic_cast:\n    ir_value = self.call_op('CastLike', [ir_value, like_type], {}, "
                "version=self._get_default_opset_version(''))",
                "return ir_value"]
-    if isrc != want_iv:
+    if isrc != _want(want_iv):
         raise TranslationError(f"BuilderBase._input_to_ir_value changed: {[p for p in isrc if p not in want_iv][:2]}")
     return dict(flags, info="InfoValueItself", cast="CreateIfKnownElseCastLike", none_passes=True)
 
@@ -320,6 +334,46 @@ NOT_LITERAL_CACHES = {
 }
 
 
+# containers classified by the rule below in the last cache_inventory run (for the evidence record)
+AUTO_NOT_LITERAL: list = []
+
+
+def _plain_scalar(e):
+    """An expression whose value is never a tensor / ir.Value / promoted literal: a str / int / bool / None constant, an
+    f-string, or an attribute chain ending in .version / .domain (the int / str fields of an Opset or an opset import)."""
+    if isinstance(e, ast.Constant):
+        return e.value is None or isinstance(e.value, (str, int, bool)) and not isinstance(e.value, float)
+    if isinstance(e, ast.JoinedStr):
+        return True
+    if isinstance(e, ast.Attribute) and e.attr in ("version", "domain"):
+        r = e.value
+        while isinstance(r, ast.Attribute):
+            r = r.value
+        return isinstance(r, ast.Name)
+    return False
+
+
+def _stores_only_plain_scalars(own, container):
+    """A DICT memo that holds no literal: every store into `container` among the nodes `own` of one function is
+    `container[k] = V` or `container.setdefault(k, V)` with V a plain scalar (above).  Such a map (domain -> version,
+    name -> name) cannot hand back a tensor created for another literal, whatever its keys are.  Sets (`.add`: the
+    memo IS the key, e.g. a negative schema memo), `.update`, and any other stored expression are not classified here:
+    they must be modelled or listed with a reason."""
+    values = []
+    for n in own:
+        if isinstance(n, ast.Assign) and len(n.targets) == 1 and isinstance(n.targets[0], ast.Subscript) \
+                and _src(n.targets[0].value) == container:
+            values.append(n.value)
+        elif isinstance(n, (ast.AugAssign, ast.AnnAssign)) and isinstance(n.target, ast.Subscript) and _src(n.target.value) == container:
+            return False
+        elif isinstance(n, ast.Call) and isinstance(n.func, ast.Attribute) and _src(n.func.value) == container:
+            if n.func.attr == "setdefault" and len(n.args) == 2 and not n.keywords:
+                values.append(n.args[1])
+            elif n.func.attr in ("add", "update", "setdefault", "append", "extend", "insert", "__setitem__"):
+                return False
+    return bool(values) and all(_plain_scalar(v) for v in values)
+
+
 def _enclosing_functions(tree):
     for fn in ast.walk(tree):
         if isinstance(fn, (ast.FunctionDef, ast.AsyncFunctionDef)):
@@ -330,10 +384,15 @@ def cache_inventory(repo):
     """every cache decorator and every dict used as a memo (tested with `in`/`not in`/.get and assigned by subscript in the
     same function) in the anchored files -> list of (file, function, container); unmodelled ones separately"""
     found, unmodelled = [], []
+    del AUTO_NOT_LITERAL[:]
     for rel in ANCHORED:
         path = os.path.join(repo, rel)
         tree = ast.parse(open(path).read())
         for fn in _enclosing_functions(tree):
+            if fn.name in REF_LOCALS:
+                # containers that are locals of the translated functions are listed under their reference names
+                # (c12_norm: renaming of locals by binding position; nothing is dropped from the function)
+                fn = NORM.normal(fn, REF_LOCALS[fn.name], tree)
             for dec in fn.decorator_list:
                 d = _src(dec)
                 if "cache" in d.lower() or "memo" in d.lower():
@@ -352,6 +411,9 @@ def cache_inventory(repo):
                 if isinstance(n, ast.Call) and isinstance(n.func, ast.Attribute) and n.func.attr in ("get", "setdefault"):
                     tested.add(_src(n.func.value))
             for c in sorted(stored & tested):
+                if _stores_only_plain_scalars(own, c):
+                    AUTO_NOT_LITERAL.append((rel, fn.name, c))
+                    continue
                 found.append((rel, fn.name, c))
     inv = []
     for f, fn, c in found:
